@@ -8,6 +8,7 @@ import os, random, shutil, struct, subprocess, tempfile
 from vlib import *
 from dbsession import DB, Proc
 from sqlgen import f32_bits
+import btreeprobe
 
 
 def keytok(ty, k):
@@ -91,6 +92,9 @@ def run_seq(rng, res, kind, ty, nops):
             if len(res.mismatches) < 5:
                 res.mismatches.append(("# index kind %s, key type %s; model session (build/c17_driver):\n%s" % (kind, ty, "\n".join(mlog[-400:])), "engine answered %s | index-wrapper model %s" % (e[:300], (m or "")[:300])))
         pool = key_pool(rng, ty, 60 if kind != "h" else 30)
+        if kind == "b" and ty == "i":
+            # integer keys >= 2147418112 under a B-tree index: known finding F-BTREE-STOPPER, probed by lib/btreeprobe.py
+            pool = [btreeprobe.clamp(k) for k in pool]
         ref = set()          # (key, rid)
         uniq = kind == "u"
         def rids_of(k):
@@ -182,7 +186,7 @@ def run_seq(rng, res, kind, ty, nops):
         if hmodel is not None:
             hmodel.close()
         if fails:
-            fails = [("# session:\n" + "\n".join(db.log[-4000:]) + "\n# at: " + d, w) for d, w in fails]
+            fails = [("# session:\n" + "\n".join(db.log[-30000:]) + "\n# at: " + d, w) for d, w in fails]
         db.destroy()
     return fails
 
@@ -270,6 +274,7 @@ def run(res, replay=None):
     rng = random.Random(res.seed)
     nops = 1500 if res.tier == "quick" else 12000
     hash_probes(res)
+    res.oracle_failures.extend(btreeprobe.probe(res))
     combos = [(k, t) for k in "subh" for t in "ifs"]
     for (k, t) in combos:
         if k == "b" and t == "s":
